@@ -31,7 +31,7 @@ class World:
     def __init__(self, ctx, eng, st, definite=True, cached=None, closed=False):
         self.ctx, self.eng = ctx, eng
         self.definite = definite
-        eng.default_replay = "C08.histories"
+        eng.default_replay = {"C08": "C08.histories", "C09": "C08.histories", "C10": "C10.faults"}
         ns = ctx.ns("term_image.renderable._enum")
         self.Seek, self.FrameCount, self.FrameDuration = ns.d["Seek"], ns.d["FrameCount"], ns.d["FrameDuration"]
         self.N = z3.Int("N")
@@ -123,6 +123,16 @@ class World:
         s = e.fork(s)
         s.ghost["renders"] = s.ghost.get("renders", 0) + 1
         s.ghost["last_render"] = (i, w, h, dur, args, d["seek_whence"])
+        G = s.ghost.get("G")
+        if G is not None:
+            # C09: ghost record (independent of the code's cache) of the settings each frame was last rendered under
+            iz = to_z3(i)
+            same = z3.And(G["done"][iz], G["w"][iz] == w, G["h"][iz] == h, G["dur"][iz] == dur, G["args"][iz] == args)
+            e.oblige("C09:cached-frame-not-rendered-again-while-its-settings-are-unchanged", s, z3.Not(same), prop="C09", kind="pre")
+            G = dict(G)
+            for key, v in (("done", z3.BoolVal(True)), ("w", w), ("h", h), ("dur", dur), ("args", args)):
+                G[key] = z3.Store(G[key], iz, to_z3(v))
+            s.ghost["G"] = G
         e.raise_(ExcVal("StopIteration"), e.fork(s))
         e.raise_(ExcVal("Boom"), e.fork(s))
         if self.definite:
@@ -155,12 +165,23 @@ def cache_arrays(tag):
     return a
 
 
-def cache_inv(a, N):
+def ghost_arrays(tag):
+    G = {k: z3.Array(f"G_{k}!{tag}", I, I) for k in ("w", "h", "dur", "args")}
+    G["done"] = z3.Array(f"G_done!{tag}", I, z3.BoolSort())
+    return G
+
+
+def cache_inv(a, N, G=None):
     i = z3.Int("ci")
-    return z3.ForAll([i], z3.Implies(z3.And(0 <= i, i < N, a["valid"][i]),
-                                     z3.And(a["num"][i] == i, a["rw"][i] == a["sw"][i], a["rh"][i] == a["sh"][i],
-                                            a["dur"][i] == RD(i, a["sw"][i], a["sh"][i], a["sdur"][i], a["sargs"][i]),
-                                            a["out"][i] == RO(i, a["sw"][i], a["sh"][i], a["sdur"][i], a["sargs"][i]))))
+    body = z3.Implies(a["valid"][i],
+                      z3.And(a["num"][i] == i, a["rw"][i] == a["sw"][i], a["rh"][i] == a["sh"][i],
+                             a["dur"][i] == RD(i, a["sw"][i], a["sh"][i], a["sdur"][i], a["sargs"][i]),
+                             a["out"][i] == RO(i, a["sw"][i], a["sh"][i], a["sdur"][i], a["sargs"][i])))
+    if G is not None:
+        # the cache holds exactly the last render of each frame, under the settings it was rendered with
+        body = z3.And(body, a["valid"][i] == G["done"][i],
+                      z3.Implies(G["done"][i], z3.And(a["sw"][i] == G["w"][i], a["sh"][i] == G["h"][i], a["sdur"][i] == G["dur"][i], a["sargs"][i] == G["args"][i])))
+    return z3.ForAll([i], z3.Implies(z3.And(0 <= i, i < N), body))
 
 
 def iterate_unit(mode):
@@ -170,6 +191,7 @@ def iterate_unit(mode):
         definite = mode != "indefinite"
         cached = mode == "definite-cached"
         eng = ctx.engine(f"C08/_iterate[{mode}]", "C08")
+        eng.inv_props = ("C08", "C09") if cached else None
         st = State()
         W = World(ctx, eng, st, definite=definite, cached=cached)
         N = W.N if definite else z3.IntVal(1)
@@ -215,6 +237,9 @@ def iterate_unit(mode):
             a = {k: z3.K(I, z3.IntVal(-1)) for k in CACHE_FIELDS}
             a["valid"] = z3.K(I, z3.BoolVal(False))
             H(s, clist)["a"] = a
+            G = {k: z3.K(I, z3.IntVal(-1)) for k in ("w", "h", "dur", "args")}
+            G["done"] = z3.K(I, z3.BoolVal(False))
+            s.ghost["G"] = G
             return [(clist, s)]
         eng.list_repeat_hook = list_repeat
 
@@ -317,7 +342,7 @@ def iterate_unit(mode):
                 parts += [fo == fn_, z3.Or(D1, D2), 0 <= gf, gf <= N, fn_ >= 0, s.ghost["renders"] == 0]
                 if cached:
                     a, a0 = H(s, clist)["a"], s.ghost["cache_at_resume"]
-                    parts += [cache_inv(a, N), *[a[k] == a0[k] for k in a]]
+                    parts += [cache_inv(a, N, s.ghost["G"]), *[a[k] == a0[k] for k in a]]
             else:
                 parts += [fn_ == 0, lp == gl, Eq(fo, gf), Eq(wh_code(d["seek_whence"]), s.ghost["g_wh"]), s.ghost["renders"] == 0]
             if inner:
@@ -336,6 +361,7 @@ def iterate_unit(mode):
             if cached:
                 H(s, clist)["a"] = cache_arrays(tag)
                 s.ghost["cache_at_resume"] = dict(H(s, clist)["a"])
+                s.ghost["G"] = ghost_arrays(tag)
             havoc_settings(e, s, tag, rely=False)
         eng.invariants = {1: LoopSpec(lambda s: common(s, False), havoc_loop), 2: LoopSpec(lambda s: common(s, True), havoc_loop)}
         # ---- entry state (as left by _init): loop != 0
